@@ -322,3 +322,56 @@ func Items(level int) []rdbgen.Item {
 	}
 	return out
 }
+
+// BatchValues are collections sized around multiples of the 100-command flush batch of the
+// element-by-element restore routes.
+func BatchValues() []*rdbgen.Value {
+	var out []*rdbgen.Value
+	add := func(v *rdbgen.Value, name string) {
+		v.Name = v.Name + "/" + name
+		out = append(out, v)
+	}
+	for _, n := range []int{200, 201} {
+		add(rdbgen.ListVal(nStr(n, "e"), rdbgen.LCanon), "batch")
+		add(rdbgen.SetVal(nStr(n, "e"), rdbgen.LCanon), "batch")
+		add(rdbgen.HashVal(nStr(2*n, "h"), rdbgen.LCanon), "batch")
+		add(rdbgen.ZSetVal(nStr(n, "z"), scores(n), true), "batch")
+	}
+	zes := func(n int) []rdbgen.ZE {
+		var es []rdbgen.ZE
+		for i := 0; i < n; i++ {
+			if i%3 == 0 {
+				es = append(es, rdbgen.ZE{Enc: "i16", I: int64(1000 + i)})
+			} else {
+				es = append(es, rdbgen.ZE{Enc: "s6", S: []byte("m" + string([]byte{byte('0' + i/100%10), byte('0' + i/10%10), byte('0' + i%10)}))})
+			}
+		}
+		return es
+	}
+	zsetZes := func(n int) []rdbgen.ZE {
+		var es []rdbgen.ZE
+		for i := 0; i < n; i++ {
+			es = append(es, rdbgen.ZE{Enc: "s6", S: []byte("m" + string([]byte{byte('0' + i/100%10), byte('0' + i/10%10), byte('0' + i%10)}))})
+			es = append(es, rdbgen.ZE{Enc: "i16", I: int64(i)})
+		}
+		return es
+	}
+	for _, n := range []int{99, 100, 101, 201} {
+		add(rdbgen.ListZiplistVal(zes(n), false, false), "batch")
+		add(rdbgen.HashZiplistVal(zes(2*n), false, false), "batch")
+		add(rdbgen.ZSetZiplistVal(zsetZes(n), false, false), "batch")
+		var ints []int64
+		for i := 0; i < n; i++ {
+			ints = append(ints, int64(i*7-300))
+		}
+		add(rdbgen.IntsetVal(ints, 2, false), "batch")
+		add(rdbgen.QuicklistVal([][]rdbgen.ZE{zes(n)}, false), "batch-1node")
+		add(rdbgen.QuicklistVal([][]rdbgen.ZE{zes(60), zes(n - 60)}, false), "batch-2nodes")
+	}
+	var pairs [][2][]byte
+	for i := 0; i < 101; i++ {
+		pairs = append(pairs, [2][]byte{[]byte("f" + string([]byte{byte('0' + i/100%10), byte('0' + i/10%10), byte('0' + i%10)})), []byte("v")})
+	}
+	add(rdbgen.ZipmapVal(pairs, 0), "batch")
+	return out
+}
